@@ -176,3 +176,134 @@ def _field_units():
 
 
 _field_units()
+
+
+# ---- exactly one running mode and one detector -----------------------------------------------------------------------
+CFGQ = "pyxel/configuration/configuration.py"
+MODES = ["exposure", "observation", "calibration"]
+DETS = ["ccd_detector", "cmos_detector", "mkid_detector", "apd_detector"]
+
+ONE_REPLAY = lambda w: {"code": """
+import itertools
+from pyxel.configuration.configuration import Configuration
+from pyxel.pipelines import DetectionPipeline
+MODES, DETS = ['exposure', 'observation', 'calibration'], ['ccd_detector', 'cmos_detector', 'mkid_detector', 'apd_detector']
+VIOLATED, DETAIL = False, ''
+for bits in itertools.product([False, True], repeat=7):
+    kw = {k: object() for k, b in zip(MODES + DETS, bits) if b}
+    ok = sum(bits[:3]) == 1 and sum(bits[3:]) == 1
+    try:
+        Configuration(pipeline=DetectionPipeline(), **kw); accepted = True
+    except ValueError:
+        accepted = False
+    if accepted != ok:
+        VIOLATED, DETAIL = True, f'Configuration with {sorted(kw)} accepted={accepted}'; break
+""", "expect": "exactly one running mode and exactly one detector, otherwise refused"}
+
+
+@unit("C12", "exactly_one")
+def exactly_one(u: Unit):
+    """Configuration.__post_init__ for symbolic presence of the seven optional entries (one symbolic run), and
+    _build_configuration for all 2^7 key sets of the YAML mapping (complete case split)."""
+    import itertools
+    from pyvc.values import VMaybe, VOpaque
+    fi = u.fn(f"{CFGQ}::Configuration.__post_init__")
+    ci = u.cls(f"{CFGQ}::Configuration")
+    flags = {k: z3.Bool("has_" + k) for k in MODES + DETS}
+
+    def setup(ex):
+        f = {"pipeline": VOpaque("cfgobj", None, {})}
+        for k, b in flags.items():
+            f[k] = VMaybe(b, VOpaque("cfgobj", ex.st.fresh_int(k), {}))
+        return [ex.st.alloc(HObj(ci, f))], {}
+    one = lambda names: z3.Sum([z3.If(flags[n], 1, 0) for n in names]) == 1
+    ps = u.paths(fi, setup, Cfg("real"), label="Configuration.__post_init__")
+    for p in ps:
+        spec = z3.And(one(MODES), one(DETS))
+        if p.kind == "return":
+            u.oblige(p, "exactly_one[Configuration accepts]", spec, {k: v for k, v in flags.items()}, ONE_REPLAY)
+        else:
+            u.oblige(p, "exactly_one[Configuration refuses]", z3.And(zb(p.exc_name() == "ValueError"), z3.Not(spec)), {k: v for k, v in flags.items()}, ONE_REPLAY)
+    u.cover("exactly_one.cover", ps, lambda p: p.kind == "return")
+    u.cover("exactly_one.cover_refuse", ps, lambda p: p.kind == "raise")
+    fb = u.fn(f"{CFGQ}::_build_configuration")
+    cfg = Cfg("real")
+    for name in ("to_pipeline", "to_exposure", "to_observation", "to_calibration", "to_ccd", "to_cmos", "to_mkid_array", "to_apd"):
+        cfg.contracts[f"{CFGQ}::{name}"] = Contract(f"{CFGQ}::{name}", lambda ex, args, kwargs, fr: VOpaque("cfgobj", ex.st.fresh_int("built"), {"from": args[0] if args else None}), "builder (boundary here)")
+    n_ok = 0
+    wrong = []
+    for bits in itertools.product([False, True], repeat=7):
+        present = [k for k, b in zip(MODES + DETS, bits) if b]
+
+        def setup_b(ex, present=present):
+            items = [(VStr("pipeline"), VOpaque("cfgobj", None, {}))] + [(VStr(k), VOpaque("cfgobj", None, {"section": k})) for k in present]
+            return [ex.st.alloc(HDict(items))], {}
+        ps = u.paths(fb, setup_b, cfg, label=f"_build_configuration{present}")
+        want = sum(bits[:3]) == 1 and sum(bits[3:]) == 1
+        for p in ps:
+            good = (p.kind == "return") == want and (p.kind == "return" or p.exc_name() == "ValueError")
+            if good and p.kind == "return":
+                c = p.st.cell(p.value).fields
+                built = [k for k in MODES + DETS if not isinstance(c.get(k), VNone) and c.get(k) is not None]
+                good = built == present
+            n_ok += good
+            if not good:
+                wrong.append(str(present))
+    u.static("exactly_one[_build_configuration, all 128 key sets]", not wrong and n_ok >= 128, fb.qualname, f"{n_ok} key sets behave as specified; wrong: {wrong[:3]}", witness={"wrong": wrong[:3]}, replay=ONE_REPLAY)
+
+
+@unit("C12", "builders.passthrough")
+def builders(u: Unit):
+    """The YAML section builders hand every entry of the mapping to the constructor under the same name: the built
+    object's settings equal the written values (unknown keys raise TypeError)."""
+    from pyvc.values import HDict
+    cases = [("to_ccd_geometry", {"row": ("int", 1, None), "col": ("int", 1, None), "total_thickness": ("real", 0, 10000), "pixel_vert_size": ("real", 0, 1000),
+                                  "pixel_horz_size": ("real", 0, 1000), "pixel_scale": ("real", 0, 1000)}),
+             ("to_cmos_geometry", {"row": ("int", 1, None), "col": ("int", 1, None), "pixel_scale": ("real", 0, 1000)}),
+             ("to_ccd_characteristics", {"quantum_efficiency": ("real", 0, 1), "charge_to_volt_conversion": ("real", 0, 100), "pre_amplification": ("real", 0, 10000),
+                                         "full_well_capacity": ("real", 0, 1e7), "adc_bit_resolution": ("int", 4, 64)}),
+             ("to_environment", {"temperature": ("real", 0, 1000)})]
+    rp = lambda w: {"code": """
+from pyxel.configuration import configuration as C
+g = C.to_ccd_geometry({'row': 3, 'col': 4, 'total_thickness': 10.0, 'pixel_vert_size': 2.0, 'pixel_horz_size': 3.0, 'pixel_scale': 1.5})
+c = C.to_ccd_characteristics({'quantum_efficiency': 0.5, 'charge_to_volt_conversion': 1e-6, 'pre_amplification': 2.0, 'full_well_capacity': 1000, 'adc_bit_resolution': 16})
+e = C.to_environment({'temperature': 123.0})
+VIOLATED = (g.row, g.col, g.total_thickness, g.pixel_vert_size, g.pixel_horz_size, g.pixel_scale) != (3, 4, 10.0, 2.0, 3.0, 1.5) or \
+    (c.quantum_efficiency, c.charge_to_volt_conversion, c.pre_amplification, c.full_well_capacity, c.adc_bit_resolution) != (0.5, 1e-6, 2.0, 1000, 16) or e.temperature != 123.0
+DETAIL = 'built objects: ' + repr((vars(g), vars(c), vars(e)))
+try:
+    C.to_ccd_geometry({'row': 3, 'col': 4, 'rowx': 1}); VIOLATED, DETAIL = True, 'unknown key accepted'
+except TypeError:
+    pass
+""", "expect": "each written setting arrives unchanged; unknown keys refused"}
+    for name, spec in cases:
+        fi = u.fn(f"{CFGQ}::{name}")
+        vals = {}
+
+        def setup(ex, spec=spec):
+            items = []
+            for k, (kind, lo, hi) in spec.items():
+                t = z3.Int("yaml_" + k) if kind == "int" else z3.Real("yaml_" + k)
+                ex.st.assume(t >= lo if kind == "int" else t > lo)
+                if hi is not None:
+                    ex.st.assume(t <= hi)
+                vals[k] = VInt(t) if kind == "int" else VFloat(t)
+                items.append((VStr(k), vals[k]))
+            return [ex.st.alloc(HDict(items))], {}
+        ps = u.paths(fi, setup, Cfg("real"), label=name)
+        for p in ps:
+            if p.kind != "return":
+                u.oblige(p, f"builders.passthrough[{name}].no_raise", False, {"exc": p.exc_name()}, rp)
+                continue
+            f = p.st.cell(p.value).fields
+            conds = [zb(p.ex.eq(f.get("_" + k), v)) if f.get("_" + k) is not None else z3.BoolVal(False) for k, v in vals.items()]
+            u.oblige(p, f"builders.passthrough[{name}]", z3.And(*conds), {}, rp)
+        u.cover(f"builders.cover[{name}]", ps, lambda p: p.kind == "return")
+        # an unknown key is refused
+        def setup_bad(ex, spec=spec):
+            items = [(VStr("row"), VInt(3)), (VStr("col"), VInt(3))] if "geometry" in name else []
+            return [ex.st.alloc(HDict(items + [(VStr("no_such_setting"), VInt(1))]))], {}
+        if name == "to_environment":
+            continue          # Environment.from_dict reads the keys it knows; the statement does not demand refusing others
+        for p in u.paths(fi, setup_bad, Cfg("real"), label=name + "[unknown key]"):
+            u.oblige(p, f"builders.unknown_key_refused[{name}]", p.kind == "raise" and p.exc_name() in ("TypeError", "KeyError"), {}, rp)
